@@ -608,6 +608,29 @@ func rangeIter(x value, t types.Type) iter {
 
 // callBuiltin interprets a call to builtin fn with arguments args,
 // returning its result.
+// aggregateCopies returns the elements that append/copy write into their destination. Struct and
+// array elements are represented by mutable backing slices that store() updates in place, so
+// they must be copied (also making overlapping copies behave like memmove); scalars are shared.
+func aggregateCopies(fn *ssa.Builtin, src []value) []value {
+	sig, ok := fn.Type().(*types.Signature)
+	if !ok || sig.Params().Len() == 0 {
+		return src
+	}
+	sl, ok := sig.Params().At(0).Type().Underlying().(*types.Slice)
+	if !ok {
+		return src
+	}
+	switch sl.Elem().Underlying().(type) {
+	case *types.Struct, *types.Array:
+		out := make([]value, len(src))
+		for k := range src {
+			out[k] = load(sl.Elem(), &src[k])
+		}
+		return out
+	}
+	return src
+}
+
 func callBuiltin(i *interpreter, caller *frame, callpos token.Pos, fn *ssa.Builtin, args []value) value {
 	switch fn.Name() {
 	case "append":
@@ -627,7 +650,7 @@ func callBuiltin(i *interpreter, caller *frame, callpos token.Pos, fn *ssa.Built
 		}
 		// Go semantic: in-place when capacity suffices (aliasing preserved by native append)
 		i.alloc(len(arg0) + len(add))
-		return append(arg0, add...)
+		return append(arg0, aggregateCopies(fn, add)...)
 
 	case "copy": // copy([]T, []T) int or copy([]byte, string) int
 		var src []value
@@ -637,7 +660,7 @@ func callBuiltin(i *interpreter, caller *frame, callpos token.Pos, fn *ssa.Built
 		case []value:
 			src = s
 		}
-		return copy(args[0].([]value), src)
+		return copy(args[0].([]value), aggregateCopies(fn, src))
 
 	case "close": // close(chan T)
 		ch := args[0].(*gchan)
